@@ -252,7 +252,7 @@ func VerifC06_ReclaimAction() {
 // and a single-pod victim in the preemptor's queue.
 // BOUND: 1 node; queue qa under d; victims: v0 elastic (2 pods, min 1) and optionally v1 (1 pod), symbolic int32 priorities, preemptibility, age 0..63 h; preempt min-runtimes unset or 0..63 h on d and qa; one pending preemptor
 func VerifC06_PreemptAction() {
-	w := actEvictWorld(evictOpts{bits: 6, nVictims: vr.Choose("victims", 2) + 1, victimQ: []string{"qa"}, pendingQ: "qa", symPrio: true, elastic: true, minRuntime: true, sameCpu: true})
+	w := actEvictWorld(evictOpts{bits: 6, nVictims: vr.Choose("victims", 2) + 1, victimQ: []string{"qa"}, pendingQ: "qa", symPrio: true, elastic: true, minRuntime: true})
 	preempt.New().Execute(w.ssn)
 	w.observe()
 	w.assertVictimsEligible(false, "preempt")
